@@ -3,17 +3,18 @@
 package tiered
 
 import (
+	"bytes"
 	"errors"
 	"fmt"
 	"io"
 	"math"
 	"os"
 	"regexp"
-	"runtime"
 	"sort"
 	"strconv"
 	"strings"
 	"sync"
+	"sync/atomic"
 	"testing"
 	"time"
 
@@ -26,11 +27,14 @@ import (
 )
 
 // C09 harness: tiered.Store with ONE flush worker under a step controller. The worker is parked at
-// every scheduling point (the memOpen / ioCopy seams, the metadata factory called by flushMetadata,
-// and the `verif` hook points idle / created / unban); client operations run while it is parked and
-// a `step` record releases it to its next scheduling point. Interpreter of op records.
+// every scheduling point (the memOpen / ioCopy seams incl. every Read of the copy loop, and the `verif`
+// hook points of flusher.go); client operations run while it is parked and a `step` record releases
+// it to its next scheduling point. A client operation may itself be taken apart at the `c-…` hook
+// points between its store calls (`@a,b` token: worker steps there). tiered.File handles are kept
+// across worker steps and evictions. Interpreter of op records.
+// TestVerif_C09_Free is the uncontrolled counterpart: the default number of workers, real goroutines.
 
-// ---- metadata types of the harness: m<j> movable, i<j> immovable
+// ---- metadata types of the harness: m<j> movable, i<j> immovable, u<j> no metadata type
 
 type c09Md struct {
 	suffix  string
@@ -43,34 +47,21 @@ func (m *c09Md) Movable() bool              { return m.movable }
 func (m *c09Md) Serialize() ([]byte, error) { return m.val, nil }
 func (m *c09Md) Deserialize(b []byte) error { m.val = append([]byte{}, b...); return nil }
 
-type c09MdFactory struct{ movable bool }
+type c09MdFactory struct{ movable, none bool }
 
-// Create is also the scheduling point "md": flushMetadata calls metadata.CreateFromSuffix first.
+// u<j> suffixes stand for suffixes without a metadata type: CreateFromSuffix returns nil for them
+// (this factory does, exactly like the loop over the registered factories when none matches).
 func (f c09MdFactory) Create(suffix string) metadata.Metadata {
-	if c09InFlushMetadata() {
-		c09Pause("md", c09LastKey(), c09SfxTok(suffix))
+	if f.none {
+		return nil
 	}
 	return &c09Md{suffix: suffix, movable: f.movable}
 }
 
-func c09InFlushMetadata() bool {
-	var pcs [24]uintptr
-	n := runtime.Callers(2, pcs[:])
-	frames := runtime.CallersFrames(pcs[:n])
-	for {
-		fr, more := frames.Next()
-		if strings.HasSuffix(fr.Function, "(*flusher).flushMetadata") {
-			return true
-		}
-		if !more {
-			return false
-		}
-	}
-}
-
 func init() {
-	metadata.Register(regexp.MustCompile(`^_vm[0-9]+$`), c09MdFactory{true})
-	metadata.Register(regexp.MustCompile(`^_vi[0-9]+$`), c09MdFactory{false})
+	metadata.Register(regexp.MustCompile(`^_vm[0-9]+$`), c09MdFactory{movable: true})
+	metadata.Register(regexp.MustCompile(`^_vi[0-9]+$`), c09MdFactory{})
+	metadata.Register(regexp.MustCompile(`^_vu[0-9]+$`), c09MdFactory{none: true})
 }
 
 func c09MdOf(tok string) (*c09Md, bool) {
@@ -85,6 +76,8 @@ func c09MdOf(tok string) (*c09Md, bool) {
 		return &c09Md{suffix: "_vm" + tok[1:], movable: true}, true
 	case 'i':
 		return &c09Md{suffix: "_vi" + tok[1:], movable: false}, true
+	case 'u':
+		return &c09Md{suffix: "_vu" + tok[1:], movable: true}, true
 	}
 	return nil, false
 }
@@ -95,14 +88,19 @@ func c09SfxTok(suffix string) string {
 		return "m" + suffix[3:]
 	case strings.HasPrefix(suffix, "_vi"):
 		return "i" + suffix[3:]
+	case strings.HasPrefix(suffix, "_vu"):
+		return "u" + suffix[3:]
 	}
 	return "?" + verifh.Str(suffix)
 }
 
 func c09SfxID(t string) int {
 	n, _ := strconv.Atoi(t[1:])
-	if t[0] == 'i' {
+	switch t[0] {
+	case 'i':
 		return 2*n + 1
+	case 'u':
+		return 1000 + 2*n
 	}
 	return 2 * n
 }
@@ -151,7 +149,9 @@ func c09Err(err error) string {
 	switch {
 	case err == nil:
 		return "ok"
-	case errors.Is(err, os.ErrNotExist):
+	case err == io.EOF:
+		return "eof"
+	case errors.Is(err, os.ErrNotExist) && !strings.Contains(err.Error(), "could not switch over"):
 		return "notexist"
 	case errors.Is(err, os.ErrExist):
 		return "exist"
@@ -159,6 +159,8 @@ func c09Err(err error) string {
 		return "oos"
 	case errors.Is(err, memory.ErrNoSpace) || strings.Contains(err.Error(), "cannot free enough space"):
 		return "nospace"
+	case strings.Contains(err.Error(), "could not switch over"):
+		return "badswitch"
 	}
 	return "other:" + verifh.Str(err.Error())
 }
@@ -175,8 +177,16 @@ type c09Ctl struct {
 	resume  chan struct{} // harness -> worker
 	cur     *c09Park      // where the worker is parked (nil: running)
 	free    bool          // shutting down: scheduling points no longer park
-	lastKey string        // key of the flush in progress (the ioCopy seam and the factory get none)
+	lastKey string        // key of the flush in progress (the ioCopy seam gets none)
 	reads   int           // Read calls of the current copy
+	buf     int           // size of the copy buffer (0: io.Copy's own)
+	// the worker started by NewStore is held at its first scheduling point for the whole case; the
+	// controlled worker is the same f.worker() on a goroutine that reports a panic instead of taking
+	// the test process down
+	heldSeen  bool
+	heldReady chan struct{}
+	hold      chan struct{}
+	cs        *c09Case
 }
 
 var (
@@ -199,13 +209,20 @@ func c09LastKey() string {
 	return ""
 }
 
-// c09Pause is called on the worker goroutine at a scheduling point.
+// c09Pause is called on a worker goroutine at a scheduling point.
 func c09Pause(point, key string, extra ...string) {
 	c := c09Active()
 	if c == nil {
 		return
 	}
 	c.mu.Lock()
+	if point == "idle" && !c.heldSeen {
+		c.heldSeen = true
+		c.mu.Unlock()
+		close(c.heldReady)
+		<-c.hold
+		return
+	}
 	if c.free {
 		c.mu.Unlock()
 		return
@@ -230,10 +247,8 @@ func (r *c09Reader) Read(p []byte) (int, error) {
 	if c != nil {
 		c.mu.Lock()
 		c.reads++
-		if c.reads == 2 {
+		if c.reads >= 2 {
 			name = "copyeof"
-		} else if c.reads > 2 {
-			name = fmt.Sprintf("copy%d", c.reads)
 		}
 		c.mu.Unlock()
 	}
@@ -254,17 +269,78 @@ func c09InstallSeams() {
 			return f, err
 		}
 		ioCopy = func(dst io.Writer, src io.Reader) (int64, error) {
+			buf := 0
 			if c := c09Active(); c != nil {
 				c.mu.Lock()
 				c.reads = 0
+				buf = c.buf
 				c.mu.Unlock()
 			}
-			n, err := io.Copy(dst, &c09Reader{src})
+			var n int64
+			var err error
+			if buf > 0 {
+				// a small copy buffer: blobs of a few bytes take many Read/Write rounds (the wrappers
+				// hide ReaderFrom / WriterTo so that the buffer is really used)
+				n, err = io.CopyBuffer(struct{ io.Writer }{dst}, &c09Reader{src}, make([]byte, buf))
+			} else {
+				n, err = io.Copy(dst, &c09Reader{src})
+			}
 			c09Pause("copied", c09LastKey())
 			return n, err
 		}
-		verifHook = func(point, key string) { c09Pause(point, key) }
+		verifHook = func(point, key string) {
+			switch {
+			case strings.HasPrefix(point, "c-"):
+				c09ClientPoint(point, key)
+			case strings.HasPrefix(point, "md:"):
+				c09Pause("md", key, c09SfxTok(point[3:]))
+			case strings.HasPrefix(point, "mdwrite:"):
+				c09Pause("mdwrite", key, c09SfxTok(point[8:]))
+			default:
+				c09Pause(point, key)
+			}
+		}
 	})
+}
+
+// c09ClientPoint is called on the harness goroutine, inside a client operation of tiered.store, at a
+// point between two of its store calls: if the operation was armed with `@a,b`, the worker takes the
+// given number of steps here.
+func c09ClientPoint(point, key string) {
+	ctl := c09Active()
+	if ctl == nil || ctl.cs == nil || ctl.cs.split == nil {
+		return
+	}
+	c := ctl.cs
+	i := c.splitIdx
+	c.splitIdx++
+	c.t.Rec("cpoint", nil, []string{point, c09KeyTok(key)})
+	n := 0
+	if i < len(c.split) {
+		n = c.split[i]
+	}
+	for j := 0; j < n && !c.broken; j++ {
+		if !c.stepAs("cstep") {
+			c.broken = true
+			return
+		}
+		c.probe()
+	}
+}
+
+// c09Worker runs the flush worker loop of f on a goroutine that survives a panic of the worker.
+func c09Worker(ctl *c09Ctl, f *flusher) {
+	defer func() {
+		if r := recover(); r != nil {
+			ctl.mu.Lock()
+			free := ctl.free
+			ctl.mu.Unlock()
+			if !free {
+				ctl.at <- c09Park{point: "panic", extra: verifh.Str(fmt.Sprint(r))}
+			}
+		}
+	}()
+	f.worker()
 }
 
 // wait until the worker is parked (it always reaches a scheduling point)
@@ -286,10 +362,13 @@ type c09Case struct {
 	s        *Store
 	ctl      *c09Ctl
 	t        *verifh.T
-	universe []string // key tokens probed
+	files    []*File // handles kept open (nil: closed)
+	split    []int   // worker steps at the points of the client operation in progress (nil: not armed)
+	splitIdx int
+	broken   bool
 }
 
-func c09Cfg(cfg []string) (mcap, dcap uint64) {
+func c09Cfg(cfg []string) (mcap, dcap uint64, buf int) {
 	mcap, dcap = 4, 64
 	for _, t := range cfg {
 		if v, ok := strings.CutPrefix(t, "mcap="); ok {
@@ -298,6 +377,12 @@ func c09Cfg(cfg []string) (mcap, dcap uint64) {
 		if v, ok := strings.CutPrefix(t, "dcap="); ok {
 			dcap, _ = strconv.ParseUint(v, 10, 64)
 		}
+		if v, ok := strings.CutPrefix(t, "buf="); ok {
+			buf, _ = strconv.Atoi(v)
+		}
+	}
+	if buf < 0 || buf > 1<<16 {
+		buf = 0
 	}
 	if mcap == 0 {
 		mcap = 4
@@ -372,7 +457,9 @@ func (c *c09Case) probe() {
 }
 
 // step releases the worker to its next scheduling point
-func (c *c09Case) step() bool {
+func (c *c09Case) step() bool { return c.stepAs("step") }
+
+func (c *c09Case) stepAs(kind string) bool {
 	ctl := c.ctl
 	ctl.mu.Lock()
 	cur := ctl.cur
@@ -381,10 +468,13 @@ func (c *c09Case) step() bool {
 		c.t.PropFail("harness-worker-not-parked")
 		return false
 	}
+	if cur.point == "panic" {
+		return false
+	}
 	f := c.s.impl.flusher
 	if cur.point == "idle" && len(f.notify) == 0 {
 		// nothing to wake the worker up: it stays in front of its select
-		c.t.Rec("step", nil, []string{"idle", "-"})
+		c.t.Rec(kind, nil, []string{"idle", "-"})
 		return true
 	}
 	ctl.mu.Lock()
@@ -398,14 +488,19 @@ func (c *c09Case) step() bool {
 	ctl.mu.Lock()
 	p := *ctl.cur
 	ctl.mu.Unlock()
+	if p.point == "panic" {
+		// the worker goroutine died: in production this takes the process down
+		c.t.Rec(kind, nil, []string{"panic", p.extra})
+		return false
+	}
 	obs := []string{p.point, c09KeyTok(p.key)}
-	if p.point == "idle" || p.point == "md" {
-		obs[1] = "-" // the factory is not told the key
+	if p.point == "idle" {
+		obs[1] = "-"
 	}
 	if p.extra != "" {
 		obs = append(obs, p.extra)
 	}
-	c.t.Rec("step", nil, obs)
+	c.t.Rec(kind, nil, obs)
 	return true
 }
 
@@ -419,21 +514,144 @@ func (c *c09Case) idleAndEmpty() bool {
 	return cur != nil && cur.point == "idle" && len(f.notify) == 0
 }
 
+func (c *c09Case) handle(tok string) (int, *File) {
+	if len(tok) < 2 || tok[0] != 'h' {
+		return -1, nil
+	}
+	i, err := strconv.Atoi(tok[1:])
+	if err != nil || i < 0 || i >= len(c.files) || c.files[i] == nil {
+		return -1, nil
+	}
+	return i, c.files[i]
+}
+
+func c09ReadObs(b []byte, m int, err error) []string {
+	switch {
+	case m > 0 && err == io.EOF:
+		return []string{"ok", verifh.Hex(b[:m]), "eof"}
+	case m > 0 && err == nil:
+		return []string{"ok", verifh.Hex(b[:m])}
+	case err == nil:
+		return []string{"ok", "x"}
+	}
+	return []string{c09Err(err)}
+}
+
+// wellFormed: the tokens of a client operation parse (checked before an operation is begun in parts)
+func (c *c09Case) wellFormed(a []string) bool {
+	if len(a) < 2 {
+		return false
+	}
+	if _, ok := c09KeyName(a[1]); !ok {
+		return false
+	}
+	switch {
+	case a[0] == "create" && len(a) == 4:
+		size, err := strconv.ParseUint(a[2], 10, 64)
+		_, err2 := verifh.Unhex(a[3])
+		return err == nil && err2 == nil && size <= 1<<20
+	case a[0] == "complete" && len(a) == 2:
+		return true
+	case a[0] == "delete" && len(a) == 3:
+		_, ok := c.scoped(a[2])
+		return ok
+	case a[0] == "setmd" && len(a) == 5:
+		_, ok := c.scoped(a[2])
+		md, ok2 := c09MdOf(a[3])
+		_, err := verifh.Unhex(a[4])
+		return ok && ok2 && err == nil && !strings.HasPrefix(md.suffix, "_vu")
+	case a[0] == "delmd" && len(a) == 4:
+		_, ok := c.scoped(a[2])
+		_, ok2 := c09MdOf(a[3])
+		return ok && ok2
+	}
+	return false
+}
+
 func (c *c09Case) do(op []string) bool {
 	if len(op) < 1 {
 		return false
 	}
 	if op[0] == "step" {
 		ok := c.step()
+		if !ok {
+			c.broken = true
+		}
 		return ok
 	}
 	if op[0] != "op" || len(op) < 2 {
 		return false
 	}
-	a := op[1:]
+	full := op[1:]
+	a := full
 	s := c.s
 	t := c.t
+	if n := len(a); n > 1 && strings.HasPrefix(a[n-1], "@") {
+		// `@x,y`: take the operation apart, the worker takes x steps at its first point, y at its second
+		var split []int
+		for _, f := range strings.Split(a[n-1][1:], ",") {
+			v, err := strconv.Atoi(f)
+			if err != nil || v < 0 || v > 64 {
+				return false
+			}
+			split = append(split, v)
+		}
+		a = a[:n-1]
+		if !c.wellFormed(a) {
+			return false
+		}
+		c.split, c.splitIdx = split, 0
+		defer func() { c.split = nil }()
+		t.Rec("begin", a, nil)
+		t.Count("split_ops", 1)
+	}
 	switch {
+	case a[0] == "openk" && len(a) == 3:
+		key, ok1 := c09KeyName(a[1])
+		sc, ok2 := c.scoped(a[2])
+		if !ok1 || !ok2 {
+			return false
+		}
+		f, err := sc.Open(key)
+		if err != nil {
+			t.Op(full, c09Err(err))
+			return true
+		}
+		c.files = append(c.files, f)
+		t.Op(full, "ok", fmt.Sprintf("h%d", len(c.files)-1))
+	case a[0] == "hread" && len(a) == 3:
+		i, f := c.handle(a[1])
+		n, err := strconv.Atoi(a[2])
+		if i < 0 || err != nil || n < 0 || n > 1<<16 {
+			return false
+		}
+		b := make([]byte, n)
+		m, rerr := f.Read(b)
+		t.Op(full, c09ReadObs(b, m, rerr)...)
+	case a[0] == "hreadat" && len(a) == 4:
+		i, f := c.handle(a[1])
+		n, err := strconv.Atoi(a[2])
+		off, err2 := strconv.Atoi(a[3])
+		if i < 0 || err != nil || err2 != nil || n < 0 || n > 1<<16 || off < 0 || off > 1<<20 {
+			return false
+		}
+		b := make([]byte, n)
+		m, rerr := f.ReadAt(b, int64(off))
+		t.Op(full, c09ReadObs(b, m, rerr)...)
+	case a[0] == "hsize" && len(a) == 2:
+		i, f := c.handle(a[1])
+		if i < 0 {
+			return false
+		}
+		t.Op(full, fmt.Sprint(f.Size()))
+	case a[0] == "hclose" && len(a) == 2:
+		i, f := c.handle(a[1])
+		if i < 0 {
+			return false
+		}
+		f.Close()
+		c.files[i] = nil
+		t.Op(full, "ok")
 	case a[0] == "create" && len(a) == 4:
 		key, ok1 := c09KeyName(a[1])
 		size, err := strconv.ParseUint(a[2], 10, 64)
@@ -445,13 +663,13 @@ func (c *c09Case) do(op []string) bool {
 		if err == nil {
 			if len(data) > 0 {
 				if _, werr := f.Write(data); werr != nil {
-					t.Op(a, "other:write:"+verifh.Str(werr.Error()))
+					t.Op(full, "other:write:"+verifh.Str(werr.Error()))
 					return true
 				}
 			}
 			f.Close()
 		}
-		t.Op(a, c09Err(err))
+		t.Op(full, c09Err(err))
 	case a[0] == "open" && len(a) == 3:
 		key, ok1 := c09KeyName(a[1])
 		sc, ok2 := c.scoped(a[2])
@@ -460,16 +678,16 @@ func (c *c09Case) do(op []string) bool {
 		}
 		f, err := sc.Open(key)
 		if err != nil {
-			t.Op(a, c09Err(err))
+			t.Op(full, c09Err(err))
 			return true
 		}
 		b, rerr := io.ReadAll(f)
 		f.Close()
 		if rerr != nil {
-			t.Op(a, "other:read:"+verifh.Str(rerr.Error()))
+			t.Op(full, "other:read:"+verifh.Str(rerr.Error()))
 			return true
 		}
-		t.Op(a, "ok", verifh.Hex(b))
+		t.Op(full, "ok", verifh.Hex(b))
 	case a[0] == "has" && len(a) == 3:
 		key, ok1 := c09KeyName(a[1])
 		sc, ok2 := c.scoped(a[2])
@@ -477,13 +695,13 @@ func (c *c09Case) do(op []string) bool {
 			return false
 		}
 		in, scoped := sc.Has(key)
-		t.Op(a, verifh.Bool(in), verifh.Bool(scoped))
+		t.Op(full, verifh.Bool(in), verifh.Bool(scoped))
 	case a[0] == "list" && len(a) == 2:
 		sc, ok2 := c.scoped(a[1])
 		if !ok2 {
 			return false
 		}
-		t.Op(a, c09Keys(sc.List()))
+		t.Op(full, c09Keys(sc.List()))
 	case a[0] == "stat" && len(a) == 3:
 		key, ok1 := c09KeyName(a[1])
 		sc, ok2 := c.scoped(a[2])
@@ -492,33 +710,35 @@ func (c *c09Case) do(op []string) bool {
 		}
 		n, err := sc.Stat(key)
 		if err != nil {
-			t.Op(a, c09Err(err))
+			t.Op(full, c09Err(err))
 			return true
 		}
-		t.Op(a, "ok", fmt.Sprint(n))
+		t.Op(full, "ok", fmt.Sprint(n))
 	case a[0] == "complete" && len(a) == 2:
 		key, ok1 := c09KeyName(a[1])
 		if !ok1 {
 			return false
 		}
-		t.Op(a, c09Err(s.MarkComplete(key)))
+		t.Op(full, c09Err(s.MarkComplete(key)))
 	case a[0] == "delete" && len(a) == 3:
 		key, ok1 := c09KeyName(a[1])
 		sc, ok2 := c.scoped(a[2])
 		if !ok1 || !ok2 {
 			return false
 		}
-		t.Op(a, c09Err(sc.Delete(key)))
+		t.Op(full, c09Err(sc.Delete(key)))
 	case a[0] == "setmd" && len(a) == 5:
 		key, ok1 := c09KeyName(a[1])
 		sc, ok2 := c.scoped(a[2])
 		md, ok3 := c09MdOf(a[3])
 		val, err := verifh.Unhex(a[4])
-		if !ok1 || !ok2 || !ok3 || err != nil {
+		// a metadata type without a factory is outside the domain: every kraken metadata type
+		// registers itself (assumption of the property)
+		if !ok1 || !ok2 || !ok3 || err != nil || strings.HasPrefix(md.suffix, "_vu") {
 			return false
 		}
 		md.val = val
-		t.Op(a, c09Err(sc.SetMetadata(key, md)))
+		t.Op(full, c09Err(sc.SetMetadata(key, md)))
 	case a[0] == "getmd" && len(a) == 4:
 		key, ok1 := c09KeyName(a[1])
 		sc, ok2 := c.scoped(a[2])
@@ -529,11 +749,11 @@ func (c *c09Case) do(op []string) bool {
 		ok, err := sc.GetMetadata(key, md)
 		switch {
 		case err != nil:
-			t.Op(a, c09Err(err))
+			t.Op(full, c09Err(err))
 		case !ok:
-			t.Op(a, "absent")
+			t.Op(full, "absent")
 		default:
-			t.Op(a, "ok", verifh.Hex(md.val))
+			t.Op(full, "ok", verifh.Hex(md.val))
 		}
 	case a[0] == "delmd" && len(a) == 4:
 		key, ok1 := c09KeyName(a[1])
@@ -542,23 +762,35 @@ func (c *c09Case) do(op []string) bool {
 		if !ok1 || !ok2 || !ok3 {
 			return false
 		}
-		t.Op(a, c09Err(sc.DeleteMetadata(key, md.suffix)))
+		t.Op(full, c09Err(sc.DeleteMetadata(key, md.suffix)))
 	default:
 		return false
 	}
 	return true
 }
 
+func (c *c09Case) drain() {
+	// let the worker run until it is back in front of its select with nothing to do
+	for i := 0; !c.broken && i < 400 && !c.idleAndEmpty(); i++ {
+		if !c.step() {
+			c.broken = true
+			break
+		}
+		c.probe()
+	}
+}
+
 // c09Exec runs one case: a fresh tiered store with one parked worker.
 func c09Exec(t *verifh.T, cs verifh.Case) {
 	c09InstallSeams()
-	mcap, dcap := c09Cfg(cs.Cfg)
+	mcap, dcap, buf := c09Cfg(cs.Cfg)
 	dir, err := os.MkdirTemp(c09TmpBase, "verif-c09-")
 	if err != nil {
 		panic(err)
 	}
 	defer os.RemoveAll(dir)
-	ctl := &c09Ctl{at: make(chan c09Park), resume: make(chan struct{})}
+	ctl := &c09Ctl{at: make(chan c09Park), resume: make(chan struct{}), buf: buf,
+		heldReady: make(chan struct{}), hold: make(chan struct{})}
 	c09CtlMu.Lock()
 	c09Cur = ctl
 	c09CtlMu.Unlock()
@@ -571,35 +803,46 @@ func c09Exec(t *verifh.T, cs verifh.Case) {
 		panic(err)
 	}
 	c := &c09Case{s: s, ctl: ctl, t: t}
-	t.Cfg(fmt.Sprintf("mcap=%d", mcap), fmt.Sprintf("dcap=%d", dcap))
-	if !ctl.waitParked() {
-		t.PropFail("harness-worker-stuck", "at=start")
-		t.End()
-		return
+	ctl.cs = c
+	cfg := []string{fmt.Sprintf("mcap=%d", mcap), fmt.Sprintf("dcap=%d", dcap)}
+	if buf > 0 {
+		cfg = append(cfg, fmt.Sprintf("buf=%d", buf))
 	}
-	broken := false
+	t.Cfg(cfg...)
+	started := false
+	select {
+	case <-ctl.heldReady:
+		// the store's own worker is held at the top of its loop; the controlled one starts now
+		go c09Worker(ctl, s.impl.flusher)
+		started = ctl.waitParked()
+	case <-time.After(5 * time.Second):
+	}
+	if !started {
+		t.PropFail("harness-worker-stuck", "at=start")
+		c.broken = true
+	}
 	for _, op := range cs.Ops {
-		if len(op) >= 1 && op[0] == "probe" {
-			continue
+		if c.broken {
+			break
+		}
+		if len(op) >= 1 {
+			switch op[0] {
+			case "probe", "begin", "cpoint", "cstep":
+				// produced by the harness itself while it runs the case
+				continue
+			}
 		}
 		if len(op) == 1 && op[0] == "drain" {
-			// let the worker run until it is back in front of its select with nothing to do
-			for i := 0; !broken && i < 200 && !c.idleAndEmpty(); i++ {
-				if !c.step() {
-					broken = true
-					break
-				}
-				c.probe()
-			}
-			if broken {
-				break
-			}
+			c.drain()
 			continue
 		}
 		done := false
 		if p := verifh.Protect(func() { done = c.do(op) }); p != "" {
 			t.PropFail("panic", verifh.Str(strings.Join(op, " ")), verifh.Str(p))
-			broken = true
+			c.broken = true
+			break
+		}
+		if c.broken {
 			break
 		}
 		if done {
@@ -610,18 +853,17 @@ func c09Exec(t *verifh.T, cs verifh.Case) {
 	}
 	// drain: run the worker until it is back in front of its select with nothing to do, so that it
 	// can be shut down without touching the next case
-	for i := 0; !broken && i < 200 && !c.idleAndEmpty(); i++ {
-		if !c.step() {
-			broken = true
-			break
-		}
-		c.probe()
-	}
+	c.drain()
 	t.End()
-	// shut the worker down
+	for _, f := range c.files {
+		if f != nil {
+			f.Close()
+		}
+	}
+	// shut the workers down
 	ctl.mu.Lock()
 	ctl.free = true
-	parked := ctl.cur != nil
+	parked := ctl.cur != nil && ctl.cur.point != "panic"
 	ctl.cur = nil
 	ctl.mu.Unlock()
 	select {
@@ -629,10 +871,11 @@ func c09Exec(t *verifh.T, cs verifh.Case) {
 	default:
 	}
 	close(s.impl.flusher.stop)
+	close(ctl.hold)
 	if parked {
 		ctl.resume <- struct{}{}
 	}
-	if broken {
+	if c.broken {
 		// a worker that is not parked at a known point may still come by: give it a moment
 		time.Sleep(50 * time.Millisecond)
 	}
@@ -650,21 +893,40 @@ func c09Closing(mcap int, keys []string) [][]string {
 		ops = append(ops, c09Op("has", k, "any"), c09Op("open", k, "any"), c09Op("open", k, "c"),
 			c09Op("getmd", k, "any", "m0"), c09Op("getmd", k, "any", "m1"), c09Op("getmd", k, "any", "i0"))
 	}
+	// whatever handles the case kept open (operations on handles that do not exist are skipped)
+	ops = append(ops, c09Op("hread", "h0", "8"), c09Op("hsize", "h0"), c09Op("hreadat", "h0", "8", "0"),
+		c09Op("hreadat", "h1", "8", "0"), c09Op("hsize", "h1"), c09Op("hread", "h1", "8"))
 	ops = append(ops, c09Op("list", "any"), c09Op("list", "c"), c09Op("list", "i"))
 	return ops
 }
 
 var c09Scopes = []string{"any", "any", "any", "any", "c", "i"}
 
-// c09Random: a random schedule of client operations and worker steps over two keys (+ a filler key
-// used for memory pressure).
+// c09Random: a random schedule of client operations (whole, or taken apart with worker steps inside),
+// handle operations and worker steps over two keys (+ a filler key used for memory pressure), with
+// varying memory and disk capacities and copy-buffer sizes.
 func c09Random(r *verifh.Rand, tr *verifh.T) verifh.Case {
 	mcap := 3 + r.Intn(3)
-	cfg := []string{fmt.Sprintf("mcap=%d", mcap), "dcap=64"}
+	dcap := 64
+	if r.Chance(1, 3) {
+		dcap = 2 + r.Intn(7) // the disk store evicts, refuses flushes
+	}
+	cfg := []string{fmt.Sprintf("mcap=%d", mcap), fmt.Sprintf("dcap=%d", dcap)}
+	if r.Chance(1, 2) {
+		cfg = append(cfg, fmt.Sprintf("buf=%d", 1+r.Intn(2)))
+	}
 	keys := []string{"k0", "k1"}
 	sfx := []string{"m0", "m0", "m1", "i0"}
 	n := 4 + r.Intn(36)
 	stepBias := 2 + r.Intn(5) // out of 10
+	nh := 0
+	split := func(o []string) []string {
+		if r.Chance(1, 4) {
+			tr.Count("random_split", 1)
+			return append(o, fmt.Sprintf("@%d,%d", r.Intn(8), r.Intn(8)))
+		}
+		return o
+	}
 	var ops [][]string
 	for j := 0; j < n; j++ {
 		if r.Intn(10) < stepBias {
@@ -681,23 +943,31 @@ func c09Random(r *verifh.Rand, tr *verifh.T) verifh.Case {
 		k := keys[r.Intn(len(keys))]
 		sc := c09Scopes[r.Intn(len(c09Scopes))]
 		var o []string
-		switch w := r.Intn(100); {
+		switch w := r.Intn(112); {
 		case w < 20:
-			size := 1 + r.Intn(2)
+			size := 1 + r.Intn(3)
 			if r.Chance(1, 8) {
 				size = mcap + 1 // does not fit in memory: falls back to disk
 			}
-			o = c09Op("create", k, fmt.Sprint(size), verifh.Hex(r.Bytes(1+r.Intn(2))))
+			o = split(c09Op("create", k, fmt.Sprint(size), verifh.Hex(r.Bytes(1+r.Intn(3)))))
 		case w < 38:
-			o = c09Op("complete", k)
+			o = split(c09Op("complete", k))
 		case w < 50:
-			o = c09Op("delete", k, sc)
+			o = split(c09Op("delete", k, sc))
 		case w < 62:
-			o = c09Op("setmd", k, sc, sfx[r.Intn(len(sfx))], verifh.Hex(r.Bytes(1)))
+			o = split(c09Op("setmd", k, sc, sfx[r.Intn(len(sfx))], verifh.Hex(r.Bytes(1))))
 		case w < 67:
-			o = c09Op("delmd", k, sc, sfx[r.Intn(len(sfx))])
+			s := sfx[r.Intn(len(sfx))]
+			if r.Chance(1, 4) {
+				s = "u0" // a suffix no metadata type is registered for
+			}
+			o = split(c09Op("delmd", k, sc, s))
 		case w < 74:
-			o = c09Op("getmd", k, sc, sfx[r.Intn(len(sfx))])
+			s := sfx[r.Intn(len(sfx))]
+			if r.Chance(1, 8) {
+				s = "u0"
+			}
+			o = c09Op("getmd", k, sc, s)
 		case w < 82:
 			o = c09Op("open", k, sc)
 		case w < 86:
@@ -709,8 +979,19 @@ func c09Random(r *verifh.Rand, tr *verifh.T) verifh.Case {
 		case w < 97:
 			// memory pressure: a filler that needs everything evictable to go
 			o = c09Op("create", "k9", fmt.Sprint(mcap-r.Intn(2)), "x")
-		default:
+		case w < 100:
 			o = c09Op("delete", "k9", "any")
+		case w < 104:
+			o = c09Op("openk", k, []string{"any", "any", "c"}[r.Intn(3)])
+			nh++ // an upper bound: a failed open takes no handle number
+		case w < 108:
+			o = c09Op("hread", fmt.Sprintf("h%d", r.Intn(nh+1)), fmt.Sprint(1+r.Intn(2)))
+		case w < 110:
+			o = c09Op("hreadat", fmt.Sprintf("h%d", r.Intn(nh+1)), fmt.Sprint(1+r.Intn(3)), fmt.Sprint(r.Intn(3)))
+		case w < 111:
+			o = c09Op("hsize", fmt.Sprintf("h%d", r.Intn(nh+1)))
+		default:
+			o = c09Op("hclose", fmt.Sprintf("h%d", r.Intn(nh+1)))
 		}
 		ops = append(ops, o)
 		tr.Count("random_op_"+o[1], 1)
@@ -719,50 +1000,59 @@ func c09Random(r *verifh.Rand, tr *verifh.T) verifh.Case {
 	return verifh.Case{Cfg: cfg, Ops: ops}
 }
 
-// c09Interleave enumerates every interleaving of a client script with the worker's steps: after each
-// client operation the worker takes 0..maxSteps steps (bounded-exhaustive over schedules).
+// c09Interleave enumerates the interleavings of a client script with the worker's steps: after each
+// client operation the worker takes 0..maxSteps steps, and inside an operation marked with a trailing
+// "@" it takes 0..maxSteps steps at each of its two points (bounded-exhaustive over schedules; sampled
+// uniformly when there are more than `limit`).
 func c09Interleave(tr *verifh.T, cfg []string, script [][]string, maxSteps int, closing [][]string, stat string, limit int) {
-	n := len(script)
-	counts := make([]int, n)
-	emitted := 0
+	// one dimension per place where the worker may run
+	dims := 0
+	for _, o := range script {
+		dims++
+		if o[len(o)-1] == "@" {
+			dims += 2
+		}
+	}
+	build := func(counts []int) [][]string {
+		var ops [][]string
+		d := 0
+		for _, o := range script {
+			if o[len(o)-1] == "@" {
+				oo := append(append([]string{}, o[:len(o)-1]...), fmt.Sprintf("@%d,%d", counts[d], counts[d+1]))
+				d += 2
+				ops = append(ops, oo)
+			} else {
+				ops = append(ops, o)
+			}
+			for j := 0; j < counts[d]; j++ {
+				ops = append(ops, c09Step)
+			}
+			d++
+		}
+		return append(ops, closing...)
+	}
+	counts := make([]int, dims)
 	total := 1
-	for i := 0; i < n && total <= 1<<30; i++ {
+	for i := 0; i < dims && total <= 1<<30; i++ {
 		total *= maxSteps + 1
 	}
 	if limit > 0 && total > limit {
 		// too many to enumerate: sample schedules uniformly instead of truncating the enumeration
-		r := verifh.NewRand(verifh.Seed(), fmt.Sprintf("c09-interleave-%d-%d", n, maxSteps))
+		r := verifh.NewRand(verifh.Seed(), fmt.Sprintf("c09-interleave-%d-%d-%s", dims, maxSteps, strings.Join(script[len(script)-1], "_")))
 		for e := 0; e < limit; e++ {
-			var ops [][]string
-			for _, o := range script {
-				ops = append(ops, o)
-				for j := r.Intn(maxSteps + 1); j > 0; j-- {
-					ops = append(ops, c09Step)
-				}
+			for i := range counts {
+				counts[i] = r.Intn(maxSteps + 1)
 			}
-			ops = append(ops, closing...)
-			c09Exec(tr, verifh.Case{Cfg: cfg, Ops: ops})
+			c09Exec(tr, verifh.Case{Cfg: cfg, Ops: build(counts)})
 			tr.Count(stat+"_sampled", 1)
 		}
 		return
 	}
 	for {
-		var ops [][]string
-		for i, o := range script {
-			ops = append(ops, o)
-			for j := 0; j < counts[i]; j++ {
-				ops = append(ops, c09Step)
-			}
-		}
-		ops = append(ops, closing...)
-		c09Exec(tr, verifh.Case{Cfg: cfg, Ops: ops})
+		c09Exec(tr, verifh.Case{Cfg: cfg, Ops: build(counts)})
 		tr.Count(stat, 1)
-		emitted++
-		if limit > 0 && emitted >= limit {
-			return
-		}
 		// next vector
-		i := n - 1
+		i := dims - 1
 		for i >= 0 {
 			counts[i]++
 			if counts[i] <= maxSteps {
@@ -777,34 +1067,64 @@ func c09Interleave(tr *verifh.T, cfg []string, script [][]string, maxSteps int, 
 	}
 }
 
+type c09Script struct {
+	cfg []string
+	ops [][]string
+}
+
 // client scripts whose interleavings with the flush worker are enumerated
-func c09Scripts() [][][]string {
-	return [][][]string{
-		{ // flush, metadata update, memory pressure
+func c09Scripts() []c09Script {
+	std := []string{"mcap=4", "dcap=64"}
+	return []c09Script{
+		{std, [][]string{ // flush, metadata update, memory pressure
 			c09Op("create", "k0", "2", "xa1a2"), c09Op("setmd", "k0", "any", "m0", "x01"), c09Op("complete", "k0"),
 			c09Op("setmd", "k0", "any", "m0", "x02"), c09Op("setmd", "k0", "any", "m1", "x03"),
-		},
-		{ // delete while the flush is in flight
+		}},
+		{std, [][]string{ // delete while the flush is in flight
 			c09Op("create", "k0", "2", "xa1a2"), c09Op("complete", "k0"), c09Op("delete", "k0", "any"),
 			c09Op("has", "k0", "any"),
-		},
-		{ // delete and re-create while the flush is in flight
+		}},
+		{std, [][]string{ // delete and re-create while the flush is in flight
 			c09Op("create", "k0", "2", "xa1a2"), c09Op("complete", "k0"), c09Op("delete", "k0", "any"),
 			c09Op("create", "k0", "1", "xb1"), c09Op("complete", "k0"),
-		},
-		{ // metadata deletion and immovable metadata
+		}},
+		{std, [][]string{ // metadata deletion and immovable metadata
 			c09Op("create", "k0", "1", "xa1"), c09Op("setmd", "k0", "any", "i0", "x07"), c09Op("setmd", "k0", "any", "m0", "x01"),
 			c09Op("complete", "k0"), c09Op("delmd", "k0", "any", "m0"), c09Op("setmd", "k0", "c", "i0", "x08"),
-		},
-		{ // metadata changes on a blob that has been flushed already (metadata-only flushes)
+		}},
+		{std, [][]string{ // metadata changes on a blob that has been flushed already (metadata-only flushes)
 			c09Op("create", "k0", "2", "xa1a2"), c09Op("setmd", "k0", "any", "m0", "x01"), c09Op("complete", "k0"),
 			{"drain"}, c09Op("delmd", "k0", "any", "m0"), c09Op("setmd", "k0", "any", "m1", "x04"),
 			c09Op("setmd", "k0", "any", "m1", "x05"),
-		},
-		{ // two keys, the second one squeezes the first out of memory
+		}},
+		{std, [][]string{ // two keys, the second one squeezes the first out of memory
 			c09Op("create", "k0", "2", "xa1a2"), c09Op("complete", "k0"), c09Op("create", "k1", "3", "xb1b2b3"),
 			c09Op("complete", "k1"), c09Op("open", "k0", "any"),
-		},
+		}},
+		{[]string{"mcap=4", "dcap=64", "buf=1"}, [][]string{ // a handle held across the (chunked) flush and the eviction from memory
+			c09Op("create", "k0", "3", "xa1a2a3"), c09Op("complete", "k0"), c09Op("openk", "k0", "any"),
+			c09Op("hread", "h0", "1"), c09Op("create", "k9", "4", "x"), c09Op("hread", "h0", "1"), c09Op("hsize", "h0"),
+		}},
+		{std, [][]string{ // metadata updates taken apart: the worker runs between ban, set and mark-dirty
+			c09Op("create", "k0", "1", "xa1"), c09Op("complete", "k0"), c09Op("setmd", "k0", "any", "m0", "x01", "@"),
+			c09Op("setmd", "k0", "any", "m0", "x02", "@"), c09Op("create", "k9", "4", "x"),
+		}},
+		{std, [][]string{ // completion and deletion taken apart
+			c09Op("create", "k0", "1", "xa1"), c09Op("setmd", "k0", "any", "m0", "x01"), c09Op("complete", "k0", "@"),
+			c09Op("delmd", "k0", "any", "m0", "@"), c09Op("delete", "k0", "any", "@"), c09Op("has", "k0", "any"),
+		}},
+		{std, [][]string{ // a suffix that no metadata type is registered for
+			c09Op("create", "k0", "1", "xa1"), c09Op("setmd", "k0", "any", "m0", "x01"), c09Op("complete", "k0"),
+			c09Op("delmd", "k0", "any", "u0"), c09Op("setmd", "k0", "any", "m0", "x02"), c09Op("getmd", "k0", "any", "u0"),
+		}},
+		{[]string{"mcap=4", "dcap=3"}, [][]string{ // the flush of k1 evicts the flushed k0 from disk while k0 has dirty metadata in memory
+			c09Op("create", "k0", "2", "xa1a2"), c09Op("complete", "k0"), {"drain"}, c09Op("setmd", "k0", "any", "m0", "x01"),
+			c09Op("create", "k1", "2", "xb1b2"), c09Op("complete", "k1"), c09Op("setmd", "k0", "any", "m1", "x02"),
+		}},
+		{[]string{"mcap=4", "dcap=2"}, [][]string{ // the disk store refuses the flush: handleFlushFailure
+			c09Op("create", "k0", "3", "xa1a2a3"), c09Op("setmd", "k0", "any", "m0", "x01"), c09Op("complete", "k0"),
+			c09Op("setmd", "k0", "any", "m1", "x02"), c09Op("open", "k0", "any"), c09Op("delete", "k0", "any"),
+		}},
 	}
 }
 
@@ -820,22 +1140,24 @@ func TestVerif_C09(t *testing.T) {
 	defer tr.Close()
 	cases, replayOnly := verifh.InputCases("ts")
 	for _, c := range cases {
+		if len(c.Ops) > 0 && len(c.Ops[0]) > 1 && c.Ops[0][0] == "one" {
+			continue // a record of the uncontrolled run (TestVerif_C09_Free replays those)
+		}
 		c09Exec(tr, c)
 		tr.Count("corpus_or_replay_cases", 1)
 	}
 	if replayOnly {
 		return
 	}
-	cfg := []string{"mcap=4", "dcap=64"}
 	closing := c09Closing(4, []string{"k0", "k1"})
 	// (a) bounded-exhaustive over schedules: every way of giving the worker 0..N steps after each
-	// client operation of a script
+	// client operation of a script (and inside the operations that are taken apart)
 	for _, sc := range c09Scripts() {
-		c09Interleave(tr, cfg, sc, verifh.Scale(3, 7), closing, "interleaving_cases", verifh.Scale(1100, 70000))
+		c09Interleave(tr, sc.cfg, sc.ops, verifh.Scale(4, 9), closing, "interleaving_cases", verifh.Scale(600, 20000))
 	}
 	// (b) random schedules
 	r := verifh.NewRand(verifh.Seed(), "c09")
-	for i := 0; i < verifh.Scale(2000, 120000); i++ {
+	for i := 0; i < verifh.Scale(2000, 100000); i++ {
 		c := c09Random(r, tr)
 		if i < 2 {
 			tr.Sample(fmt.Sprint(c.Cfg, c.Ops))
@@ -843,4 +1165,239 @@ func TestVerif_C09(t *testing.T) {
 		c09Exec(tr, c)
 		tr.Count("random_cases", 1)
 	}
+}
+
+// ---- the uncontrolled run: the default number of flush workers, nothing parked, real goroutines
+
+// TestVerif_C09_Free runs client goroutines against a tiered store with its default flush workers and
+// no scheduling control: every key is used once (so every schedule is in the class of the partial
+// theorem), memory is small (blobs are evicted as soon as they are flushed), the disk is large (nothing
+// is evicted from it). Per operation: a completed blob opens with its bytes, the last acknowledged
+// metadata update is read back, a deleted key is gone; at the end everything is read back once more.
+// Under -race (thorough tier) the lock discipline of the flusher is checked as well.
+func TestVerif_C09_Free(t *testing.T) {
+	tr := verifh.Open("ts")
+	defer tr.Close()
+	c09InstallSeams()
+	c09CtlMu.Lock()
+	c09Cur = nil
+	c09CtlMu.Unlock()
+	cases, replayOnly := verifh.InputCases("ts")
+	type params struct{ seed, writers, iters, mcap, reps int }
+	var runs []params
+	for _, c := range cases {
+		if len(c.Ops) == 0 || len(c.Ops[0]) < 2 || c.Ops[0][0] != "one" || c.Ops[0][1] != "free" {
+			continue
+		}
+		p := params{writers: 4, iters: 40, mcap: 16, reps: 1}
+		for _, tok := range c.Ops[0][2:] {
+			if v, ok := strings.CutPrefix(tok, "rs="); ok {
+				p.seed, _ = strconv.Atoi(v)
+			}
+			if v, ok := strings.CutPrefix(tok, "writers="); ok {
+				p.writers, _ = strconv.Atoi(v)
+			}
+			if v, ok := strings.CutPrefix(tok, "iters="); ok {
+				p.iters, _ = strconv.Atoi(v)
+			}
+			if v, ok := strings.CutPrefix(tok, "mcap="); ok {
+				p.mcap, _ = strconv.Atoi(v)
+			}
+		}
+		if p.writers < 1 || p.writers > 64 || p.iters < 1 || p.iters > 100000 || p.mcap < 1 {
+			continue
+		}
+		p.reps = 20 // a replayed run is repeated: the schedule is not under control
+		runs = append(runs, p)
+	}
+	if !replayOnly {
+		r := verifh.NewRand(verifh.Seed(), "c09-free")
+		for i := 0; i < verifh.Scale(6, 60); i++ {
+			runs = append(runs, params{seed: r.Intn(1 << 30), writers: 2 + r.Intn(5), iters: verifh.Scale(60, 300), mcap: 8 + r.Intn(24), reps: 1})
+		}
+	}
+	for _, p := range runs {
+		for rep := 0; rep < p.reps; rep++ {
+			fails := c09FreeRun(p.seed+rep, p.writers, p.iters, p.mcap)
+			toks := []string{"free", fmt.Sprintf("rs=%d", p.seed), fmt.Sprintf("writers=%d", p.writers),
+				fmt.Sprintf("iters=%d", p.iters), fmt.Sprintf("mcap=%d", p.mcap)}
+			if len(fails) > 0 {
+				for _, f := range fails {
+					tr.PropFail(f[0], append(f[1:], verifh.Str(strings.Join(toks, " ")))...)
+				}
+				tr.One(toks, "failed")
+				tr.Count("free_failed_runs", 1)
+				break
+			}
+			tr.One(toks, "ok")
+			tr.Count("free_runs", 1)
+		}
+	}
+}
+
+// c09FreeRun: one uncontrolled run; returns the predicate failures (key, details…).
+func c09FreeRun(seed, writers, iters, mcap int) [][]string {
+	dir, err := os.MkdirTemp(c09TmpBase, "verif-c09f-")
+	if err != nil {
+		panic(err)
+	}
+	defer os.RemoveAll(dir)
+	s, _, err := NewStore(&Config{
+		DiskConfig: &disk.Config{RootDir: dir, CapacityBytes: 1 << 30},
+		MemConfig:  &memory.Config{CapacityBytes: uint64(mcap), GOMEMLIMITBytes: math.MaxInt64},
+	}, tally.NoopScope)
+	if err != nil {
+		panic(err)
+	}
+	defer close(s.impl.flusher.stop)
+	var mu sync.Mutex
+	var fails [][]string
+	fail := func(key string, detail ...string) {
+		mu.Lock()
+		defer mu.Unlock()
+		if len(fails) < 8 {
+			fails = append(fails, append([]string{key}, detail...))
+		}
+	}
+	type rec struct {
+		key     string
+		data    []byte
+		md      map[string][]byte // last acknowledged value per suffix (nil: deleted)
+		deleted bool
+	}
+	var all []*rec
+	var allMu sync.Mutex
+	var stop atomic.Bool
+	check := func(w int, r *rec, when string) {
+		f, err := s.Open(r.key)
+		if err != nil {
+			fail("free-lost-blob", fmt.Sprintf("w=%d", w), r.key, when, verifh.Str(err.Error()))
+			return
+		}
+		b, rerr := io.ReadAll(f)
+		f.Close()
+		if rerr != nil || !bytes.Equal(b, r.data) {
+			fail("free-corrupt-blob", fmt.Sprintf("w=%d", w), r.key, when, "want="+verifh.Hex(r.data), "got="+verifh.Hex(b), fmt.Sprint(rerr))
+		}
+		for sfx, want := range r.md {
+			md := &c09Md{suffix: sfx, movable: true}
+			ok, err := s.GetMetadata(r.key, md)
+			switch {
+			case err != nil:
+				fail("free-lost-metadata-update", fmt.Sprintf("w=%d", w), r.key, when, sfx, verifh.Str(err.Error()))
+			case want == nil && ok:
+				fail("free-lost-metadata-update", fmt.Sprintf("w=%d", w), r.key, when, sfx, "deleted,got="+verifh.Hex(md.val))
+			case want != nil && (!ok || !bytes.Equal(md.val, want)):
+				fail("free-lost-metadata-update", fmt.Sprintf("w=%d", w), r.key, when, sfx, "want="+verifh.Hex(want), fmt.Sprintf("ok=%v", ok), "got="+verifh.Hex(md.val))
+			}
+		}
+	}
+	var wg sync.WaitGroup
+	for w := 0; w < writers; w++ {
+		wg.Add(1)
+		go func(w int) {
+			defer wg.Done()
+			defer func() {
+				if p := recover(); p != nil {
+					fail("free-panic", fmt.Sprintf("w=%d", w), verifh.Str(fmt.Sprint(p)))
+				}
+			}()
+			r := verifh.NewRand(uint64(seed), fmt.Sprintf("free-%d", w))
+			var mine []*rec
+			for it := 0; it < iters && !stop.Load(); it++ {
+				rc := &rec{key: fmt.Sprintf("%02x%06x", w, it), data: r.Bytes(1 + r.Intn(3)), md: map[string][]byte{}}
+				size := uint64(len(rc.data))
+				if r.Chance(1, 16) {
+					size = uint64(mcap + 1) // straight to disk
+				}
+				f, err := s.Create(rc.key, size)
+				if err != nil {
+					fail("free-create", rc.key, verifh.Str(err.Error()))
+					continue
+				}
+				if _, err := f.Write(rc.data); err != nil {
+					fail("free-create", rc.key, "write", verifh.Str(err.Error()))
+				}
+				f.Close()
+				if r.Chance(1, 2) {
+					v := r.Bytes(1)
+					if err := s.SetMetadata(rc.key, &c09Md{suffix: "_vm0", movable: true, val: v}); err != nil {
+						fail("free-setmd", rc.key, verifh.Str(err.Error()))
+					} else {
+						rc.md["_vm0"] = v
+					}
+				}
+				if err := s.MarkComplete(rc.key); err != nil {
+					fail("free-complete", rc.key, verifh.Str(err.Error()))
+					continue
+				}
+				mine = append(mine, rc)
+				allMu.Lock()
+				all = append(all, rc)
+				allMu.Unlock()
+				// a few operations on this and on earlier blobs of this writer, racing the flush workers
+				for j := r.Intn(5); j > 0; j-- {
+					x := mine[len(mine)-1-r.Intn(min(len(mine), 4))]
+					if x.deleted {
+						continue
+					}
+					switch r.Intn(8) {
+					case 0, 1, 2:
+						sfx := []string{"_vm0", "_vm1"}[r.Intn(2)]
+						v := r.Bytes(1)
+						if err := s.SetMetadata(x.key, &c09Md{suffix: sfx, movable: true, val: v}); err != nil {
+							fail("free-setmd", x.key, verifh.Str(err.Error()))
+						} else {
+							x.md[sfx] = v
+						}
+					case 3:
+						sfx := []string{"_vm0", "_vm1", "_vu0"}[r.Intn(3)]
+						if err := s.DeleteMetadata(x.key, sfx); err != nil {
+							fail("free-delmd", x.key, verifh.Str(err.Error()))
+						} else if sfx != "_vu0" {
+							x.md[sfx] = nil
+						}
+					case 4, 5, 6:
+						check(w, x, "during")
+					case 7:
+						if err := s.Delete(x.key); err != nil {
+							fail("free-delete", x.key, verifh.Str(err.Error()))
+						} else {
+							x.deleted = true
+							if in, _ := s.Has(x.key); in {
+								fail("free-deleted-key-resurfaced", x.key)
+							}
+						}
+					}
+				}
+			}
+		}(w)
+	}
+	wg.Wait()
+	stop.Store(true)
+	// wait for the flusher to finish, then squeeze memory and read everything back
+	f := s.impl.flusher
+	for i := 0; i < 500; i++ {
+		f.mu.Lock()
+		n := len(f.blobs)
+		f.mu.Unlock()
+		if n == 0 {
+			break
+		}
+		time.Sleep(10 * time.Millisecond)
+	}
+	if fl, err := s.Create("ffffffff", uint64(mcap)); err == nil {
+		fl.Close()
+		s.Delete("ffffffff")
+	}
+	for _, r := range all {
+		if r.deleted {
+			if in, _ := s.Has(r.key); in {
+				fail("free-deleted-key-resurfaced", r.key, "at-end")
+			}
+			continue
+		}
+		check(-1, r, "at-end")
+	}
+	return fails
 }
